@@ -55,6 +55,9 @@ def gen_history(rng, n, labels=True, deps=True, collide=False, max_parents=2, sh
                     c = rng.choice(pool)
                     pool.remove(c)
                     dp.append(c)
+        if deps and down and rng.random() < (0.2 if len(down) > 1 else 0.04):
+            # legal and de-duplicated by alembic: depends_on repeats one of the revision's own down revisions
+            dp.insert(rng.randrange(len(dp) + 1), rng.choice(down))
         lb = []
         if labels and rng.random() < 0.25:
             if collide:
